@@ -2049,7 +2049,10 @@ impl AnnotationStore {
 
     /// Removes an annotation as part of a cascade; an annotation that was already removed earlier
     /// in the same cascade (because it was reachable along another path) is skipped
-    fn remove_annotation_if_exists(&mut self, handle: AnnotationHandle) -> Result<(), StamError> {
+    pub(crate) fn remove_annotation_if_exists(
+        &mut self,
+        handle: AnnotationHandle,
+    ) -> Result<(), StamError> {
         if let Some(Some(_)) = self.annotations.get(handle.as_usize()) {
             <AnnotationStore as StoreFor<Annotation>>::remove(self, handle)
         } else {
